@@ -153,6 +153,7 @@ def create_default_dis_func(
             orig_name = back_map[maybe_renamed_attr_name]
             if (
                 cl_fields[orig_name].default in (NOTHING, MISSING)
+                and getattr(cl_fields[orig_name], "default_factory", MISSING) is MISSING
                 and cl_fields[orig_name].init
             ):
                 # Attributes with `init=False` are not part of payloads.
